@@ -11,6 +11,7 @@ FUNCS = ["primitives::{FromSteelVal, TryFrom<SteelVal>, TryFrom<&SteelVal>} for 
          "primitives::{IntoSteelVal, From<T> for SteelVal} for {i8,u8,i16,u16,i32,u32,i64,u64,isize,usize,u128,f32,f64,char,bool,(),Option<T>}"]
 
 ASSUME = [
+    "arity (E3): only branch conditions on the slice length of the argument vector are interpreted; every other branch is free; wrappers = closures named register_fn*::{closure#0} taking &[SteelVal]",
     "stub: std::rt::thread_cleanup = no-op; alloc::fmt::format returns an empty String (error text not checked, Err/Ok is)",
     "feature set std,sync,biased,imbl,rooted-instructions; values are mem::forgotten",
     "script integers are IntV (machine word); BigNum sources are covered only through u64/usize/i64 'into' directions",
@@ -34,10 +35,100 @@ def plan(tier):
     return q + (t if tier == "thorough" else [])
 
 
+def arity_obligations(run, wsdir_for_mir=None):
+    """E3: the register_fn wrapper closures (MIR -> SMT): the script's argument count is pinned to
+    one value on every path to the host call."""
+    import os, json, shutil, subprocess, re, time
+    import ws, mir, p_arity, p_sync
+    t0 = time.time()
+    try:
+        wsdir = ws.prepare("c20mir", [])
+        root = os.path.dirname(wsdir)
+        out = os.path.join(root, "steel_core.mir")
+        env = dict(os.environ, CARGO_NET_OFFLINE="true")
+        env.pop("RUSTFLAGS", None)
+        with open(out, "w") as f, open(os.path.join(root, "mir.err"), "w") as e:
+            p = subprocess.run(["cargo", "+nightly", "rustc", "--offline", "-p", "steel-core", "--lib", "--no-default-features",
+                                "--features", ws.FEATURES, "--target-dir", os.path.join(root, "tmir"), "--",
+                                "-Zunpretty=mir", "-C", "debug-assertions=off"], cwd=wsdir, stdout=f, stderr=e, env=env)
+        funcs = mir.parse(open(out).read(), lambda n: "register_fn" in n and "{closure" in n)
+        wrappers = p_arity.wrappers(funcs)
+    except Exception as ex:
+        run.ob("arity:mir-dump", "inconclusive", reason=str(ex)[-500:], engine="mir-smt")
+        return
+    if len(wrappers) < 20:
+        run.ob("arity:wrappers", "inconclusive", reason="only %d register_fn wrapper closures recognised in the MIR dump" % len(wrappers), engine="mir-smt")
+        return
+    bad, errs, n_unsat, solver_s = [], [], 0, 0.0
+    for key, f, calls in wrappers:
+        try:
+            r = p_arity.check_wrapper(key, f, calls)
+        except Exception as ex:
+            errs.append("%s: %s" % (key[-60:], str(ex)[:120]))
+            continue
+        solver_s += r["dt"]
+        if r["res"] == "unsat":
+            n_unsat += 1
+        elif r["res"] == "sat":
+            bad.append(r)
+        else:
+            errs.append("%s: solver %s" % (key[-60:], r["res"]))
+    run.functions.append("steel_vm::register_fn: %d wrapper closures `register_fn::{closure#0}` / `register_owned_fn` / `register_fn_borrowed` (MIR)" % len(wrappers))
+    run.samples.append({"engine": "mir-smt", "wrappers": len(wrappers), "query": "exists len1 != len2 both reaching <FN as Fn<..>>::call", "unsat": n_unsat})
+    common = dict(engine="mir-smt/z3", wall_s=time.time() - t0, solver_s=round(solver_s, 2), solver_checks=len(wrappers))
+    if errs:
+        run.ob("arity:wrappers", "inconclusive", reason="; ".join(errs[:3]), **common)
+        return
+    if not bad:
+        run.ob("arity:wrappers", "pass", nonvacuous=True, note="%d wrappers: argument count pinned on every path to the host call" % n_unsat, **common)
+        return
+    # replay natively
+    r = bad[0]
+    lens = ",".join(str(x) for x in r["lens"])
+    try:
+        shutil.copy(os.path.join(ws.VERIF, "harness", "arity_replay.rs"), os.path.join(wsdir, "crates", "steel-core", "tests", "verif_arity_replay.rs"))
+        p = subprocess.run(["cargo", "test", "--offline", "-p", "steel-core", "--no-default-features", "--features", ws.FEATURES,
+                            "--test", "verif_arity_replay", "--target-dir", os.path.join(root, "tn"), "--", "--nocapture"],
+                           cwd=wsdir, env=dict(env, VERIF_ARITY_LENS=lens), capture_output=True, text=True, timeout=1800)
+        m = re.search(r"OBSERVED: (.*)", p.stdout + p.stderr)
+    except Exception as ex:
+        m, p = None, None
+        run.ob("arity:wrappers", "inconclusive", reason="replay failed: %s" % str(ex)[-300:], **common)
+        return
+    if not m:
+        run.ob("arity:wrappers", "inconclusive", reason="solver: argument counts %s both reach the host call in %s, but no wrong-arity call was accepted natively" % (lens, r["name"][-80:]), **common)
+        return
+    d = os.path.join(ws.VERIF, "replays", run.pid)
+    os.makedirs(d, exist_ok=True)
+    path = os.path.join(d, "arity.json")
+    json.dump({"property": run.pid, "wrapper": r["name"], "lens": r["lens"], "observed": m.group(1), "kind": "arity",
+               "how": "./check C20 --replay <this file>"}, open(path, "w"), indent=1)
+    run.violation("arity:host-function-called-with-wrong-argument-count", "%s: %s" % (r["name"][-80:], m.group(1)[:300]), path)
+    run.ob("arity:wrappers", "fail", note=m.group(1)[:200], **common)
+
+
 def check(pid, tier, seed):
-    return p_kani.check(pid, tier, seed, SPECS, plan(tier), FUNCS,
-                        {"scalars": "full width of each type", "unwind": 6}, ASSUME, RULE, slots=4)
+    run = p_kani.check(pid, tier, seed, SPECS, plan(tier), FUNCS,
+                       {"scalars": "full width of each type", "unwind": 6, "arity": "all register_fn wrapper closures in the MIR dump, argument count 64-bit"}, ASSUME, RULE, slots=4)
+    arity_obligations(run)
+    return run
 
 
 def replay(pid, path):
+    import json
+    payload = json.load(open(path))
+    if payload.get("kind") == "arity":
+        import os, shutil, subprocess, re, ws
+        wsdir = ws.prepare("c20replay", [])
+        root = os.path.dirname(wsdir)
+        shutil.copy(os.path.join(ws.VERIF, "harness", "arity_replay.rs"), os.path.join(wsdir, "crates", "steel-core", "tests", "verif_arity_replay.rs"))
+        p = subprocess.run(["cargo", "test", "--offline", "-p", "steel-core", "--no-default-features", "--features", ws.FEATURES,
+                            "--test", "verif_arity_replay", "--target-dir", os.path.join(root, "tn"), "--", "--nocapture"],
+                           cwd=wsdir, env=dict(os.environ, VERIF_ARITY_LENS=",".join(str(x) for x in payload["lens"])), capture_output=True, text=True)
+        m = re.search(r"OBSERVED: (.*)", p.stdout + p.stderr)
+        print("observed:", m.group(1) if m else "not reproduced")
+        if m:
+            print("VIOLATION property=%s replay=%s" % (pid, path))
+            return 1
+        return 0
     return p_kani.replay(pid, path)
